@@ -159,9 +159,54 @@ impl Property for C15 {
     fn generate(&self, tier: Tier, seed: u64) -> Vec<Value> {
         let mut v = gen::draw(seed, "C15-cli", tier.pick(70, 1500), gen_cli_case);
         v.extend(gen::draw(seed, "C15-fail", tier.pick(6, 60), gen_cli_failing_case));
+        match super::c15m::macro_cases(seed, tier.pick(24, 300)) {
+            Ok(m) => v.extend(m),
+            Err(e) => {
+                eprintln!("INFRA: {e}");
+                std::process::exit(2);
+            }
+        }
         v
     }
     fn prepare(&self, c: &Value) -> Unit {
+        let replayed;
+        let c = if c["front"] == "macro-replay" {
+            // regression replay of a single macro case: run the expansion batch for it
+            let mut one = c.clone();
+            one["front"] = json!("macro");
+            match super::c15m::run_macro_batch(vec![one], &format!("/verif/work/macro-C15-replay-{}", std::process::id())) {
+                Ok(mut v) => {
+                    replayed = v.remove(0);
+                    &replayed
+                }
+                Err(e) => {
+                    let mut unit = Unit::default();
+                    unit.outcome = Outcome::Crash;
+                    unit.message = format!("HARNESS macro replay: {e}");
+                    return unit;
+                }
+            }
+        } else {
+            c
+        };
+        if c["front"] == "macro" {
+            // the verdict was established by the expansion batch in generate()
+            let mut unit = Unit::default();
+            unit.classes.push("front:macro".into());
+            unit.nontrivial = c["opts"].as_array().map(|a| !a.is_empty()).unwrap_or(false);
+            let detail = c["result"]["detail"].as_str().unwrap_or("").to_string();
+            match c["result"]["status"].as_str() {
+                Some("equal") => {}
+                Some("builder-refuses") => unit.outcome = Outcome::Err,
+                Some("differs") => unit.violations.push(Violation::new("macro-items-differ-from-builder", format!("options {}: {detail}", c["opts"]))),
+                Some("macro-error") => unit.violations.push(Violation::new("macro-rejects-documented-option", format!("options {}: {detail}", c["opts"]))),
+                _ => {
+                    unit.outcome = Outcome::Crash;
+                    unit.message = format!("HARNESS macro half: {detail}");
+                }
+            }
+            return unit;
+        }
         let Ok(settings) = serde_json::from_value::<Settings>(c["settings"].clone()) else { return invalid_unit("settings".into()) };
         let Some(args) = c["args"].as_array().map(|a| a.iter().filter_map(|x| x.as_str().map(|s| s.to_string())).collect::<Vec<_>>()) else { return invalid_unit("args".into()) };
         let doc = &c["doc"];
@@ -273,7 +318,7 @@ impl Property for C15 {
     fn in_domain(&self, c: &Value) -> bool {
         // option lists are atomic (an option and its value belong together);
         // only the document shrinks
-        c["front"].is_string() && c["args"].is_array() && c["doc"].is_object() && {
+        c["front"] != "macro" && c["front"].is_string() && c["args"].is_array() && c["doc"].is_object() && {
             let args: Vec<&str> = c["args"].as_array().map(|a| a.iter().filter_map(|x| x.as_str()).collect()).unwrap_or_default();
             let mut i = 0;
             let mut ok = true;
